@@ -19,8 +19,10 @@ pub enum Offs {
     BackRefs,
     Descending,
     Overlapping,
+    /// the same bytes stored more than once at different offsets (a writer that does not deduplicate)
+    Duplicates,
 }
-pub const OFFS: [Offs; 4] = [Offs::Contiguous, Offs::BackRefs, Offs::Descending, Offs::Overlapping];
+pub const OFFS: [Offs; 5] = [Offs::Contiguous, Offs::BackRefs, Offs::Descending, Offs::Overlapping, Offs::Duplicates];
 
 pub const ORDERS: [[Sec; 3]; 6] = [
     [Sec::Meta, Sec::Leaves, Sec::Data],
@@ -155,6 +157,14 @@ fn tiles_of(s: &Spec) -> (Vec<SEntry>, Vec<u8>) {
                 end -= u64::from(l);
                 data[end as usize..(end + u64::from(l)) as usize].copy_from_slice(&content(k));
                 offs.push((end, l));
+            }
+        }
+        Offs::Duplicates => {
+            for k in 0..n {
+                // only two distinct contents (of equal length), each stored again and again
+                let c = content(k % 2 + 3);
+                offs.push((data.len() as u64, c.len() as u32));
+                data.extend(c);
             }
         }
         Offs::Overlapping => {
